@@ -12,6 +12,10 @@ CLAIMS = {
     text='Lean 4 theorems over the model of Response (send_exact: bytes written = bytes reserved for every operation history; size invariant), tied to the code by regenerated header/status tables and a differential run of the real Response against the model and an independent HTTP reader',
     note=TB + 'modelled not verified: Content::Stream/WebSocket arms of send (C17 covers Stream)',
     technique='Lean 4 proof (invariant over operation histories) + model/implementation correspondence'),
+ 'C09': dict(
+    text='Lean 4 theorem roundtrip_struct (reader after writer = identity and consumes all text, for every struct type and every well-typed unambiguous value, with the text primitives proved rather than assumed) and the percent-encoding round trip; tied to the code by a differential run of the real to_string / from_bytes / QueryParams::iter against the writer and reader models, and of decoded texts against an independent RFC 3986 pair reader',
+    note=TB + 'modelled not verified: serde derive visitor protocol, str::parse, from_utf8, percent_encoding (hand models; PrimsOK proved for them); floats outside the catalogue; known finding KF-C09-empty-ambiguity',
+    technique='Lean 4 proof (round trip by induction over fields/values) + model/implementation correspondence'),
  'C20': dict(
     text='Lean 4 theorems for every timestamp <= 9999-12-31T23:59:59 and every usize (imf_fixdate_exact, itoa_exact, hexized_exact) about definitions TRANSLATED from time.rs / num.rs on every run; differential run of the real functions against the model and against an independent calendar over every 7th day (quick) or every day number (thorough)',
     note=TB + 'the rendering sequence of into_imf_fixdate is a hand model (validated on every day number in the thorough tier)',
